@@ -298,12 +298,23 @@ def bounded(pr):
             extra.append('desolv_cutoff_squared %s\n' % rng.choice((256.0, 300.0)))
             extra.append('desolv_cutoff %s\n' % rng.choice((17.0, 21.0)))
         pos = rng.choice(('end', 'shuffle'))
+        if k % 3 == 1:
+            # last line of the file (written without terminator below): every character of its last value counts
+            extra.append('sidechain_cutoffs default 3.25 4.75\n' if k % 2 else 'desolv_cutoff 18.25\n')
         lines += extra
         if k == 0:
             fd, path = tempfile.mkstemp(suffix='.cfg')
             os.close(fd)
-        # the SAME path is rewritten with other content each time (a regenerated custom parameter file)
-        open(path, 'w').write(''.join(lines))
+        # the SAME path is rewritten with other content each time (a regenerated custom parameter file);
+        # every third file ends without a line terminator, some lines carry a trailing comment or Windows line ends
+        text = ''.join(lines)
+        if k % 3 == 1:
+            text = text.rstrip('\n')
+        if k % 4 == 2:
+            text = text.replace('\n', '  # generated\n', 5)
+        if k % 5 == 3:
+            text = text.replace('\n', '\r\n')
+        open(path, 'w', newline='').write(text)
         try:
             p = read_parameter_file(path, Parameters())
             p2 = Parameters()
@@ -335,5 +346,5 @@ def bounded(pr):
     os.unlink(path)
     pr.bounded.append({'name': 'C18-monitor: generated parameter files through the real parser', 'evaluations': ev,
                        'distinct_nontrivial': len(classes), 'bound': '%d files' % n,
-                       'rule': 'shipped file + 1-4 extra/duplicate pair rows, optional default row, scalar overrides; '
+                       'rule': 'shipped file + 1-4 extra/duplicate pair rows, optional default row, scalar overrides; last line without terminator, trailing comments, CRLF; '
                                'symmetry, default fall-back and squared consistency checked', 'violations': viol})
